@@ -119,8 +119,8 @@ def run_verus_part():
     return out
 
 
-def run_kani_part(tier, only=None):
-    crate = kani.instantiate('lawcheck')
+def run_kani_part(tier, only=None, crate=None):
+    crate = crate or kani.instantiate('lawcheck')
     hs = list(KANI_QUICK) + (KANI_THOROUGH_EXTRA if tier == 'thorough' else [])
     if only is not None:
         hs = [h for h in hs if h in only]
@@ -176,7 +176,7 @@ def run_unit(tier):
     crate = kani.instantiate('lawcheck')
     with ThreadPoolExecutor(max_workers=3) as ex:
         fv = ex.submit(run_verus_part)
-        fk = ex.submit(run_kani_part, tier)
+        fk = ex.submit(run_kani_part, tier, None, crate)
         binary, build_s = kani.build_native(crate, 'lawcheck')
         fn = ex.submit(run_native_part, tier, binary)
         v = fv.result()
